@@ -2,7 +2,7 @@
 """False-alarm test: apply each behaviour-preserving refactoring of selftest/refactors/*.diff to a scratch copy of the
 current tree and require EVERY property's rules to stay silent.
 
-  tools/refactor_test.py [--jobs N] [--only NAME] [--dir DIR]"""
+  tools/refactor_test.py [--jobs N] [--only NAME] [--dir DIR] [--release]   (--release: both build configurations)"""
 import glob, importlib, multiprocessing, os, shutil, subprocess, sys, tempfile, time
 
 VERIF = os.path.dirname(os.path.dirname(os.path.abspath(__file__)))
@@ -11,6 +11,7 @@ sys.path.insert(0, os.path.join(VERIF, "tools"))
 from selftest import copy_tree  # noqa
 
 PROPS = ["C%02d" % i for i in range(1, 18)]
+RELEASE = "--release" in sys.argv
 
 
 def run_one(path):
@@ -25,20 +26,22 @@ def run_one(path):
             r = subprocess.run(["patch", "-p1", "-s", "-d", wt, "-i", path], capture_output=True, text=True)
             if r.returncode != 0:
                 return dict(name=os.path.basename(path), status="SKIPPED", why="does not apply: " + (r.stderr or r.stdout)[-200:], s=0)
-        try:
-            facts, meta = F.load(repo=wt, use_cache=False)
-        except F.BuildError as e:
-            return dict(name=os.path.basename(path), status="NOBUILD", why=str(e)[-300:], s=time.time() - t0)
-        ix = mir.Index(facts)
         alarms = []
-        for prop in PROPS:
-            mod = importlib.import_module("rules." + prop.lower())
-            ctx = engine.run_rules(prop, mod.RULES, ix, "dev")
-            alarms += [(i.key, i.what[:160]) for i in ctx.insts if not i.ok and not i.note]
-        try:
-            os.remove(meta["facts_file"])
-        except OSError:
-            pass
+        for release in ((False, True) if RELEASE else (False,)):
+            try:
+                facts, meta = F.load(repo=wt, use_cache=False, release=release)
+            except F.BuildError as e:
+                return dict(name=os.path.basename(path), status="NOBUILD", why=str(e)[-300:], s=time.time() - t0)
+            ix = mir.Index(facts)
+            cfg = "release" if release else "dev"
+            for prop in PROPS:
+                mod = importlib.import_module("rules." + prop.lower())
+                ctx = engine.run_rules(prop, mod.RULES, ix, cfg)
+                alarms += [(i.key + ("@release" if release else ""), i.what[:160]) for i in ctx.insts if not i.ok and not i.note]
+            try:
+                os.remove(meta["facts_file"])
+            except OSError:
+                pass
         exp = ", ".join("%s->%s x%d" % (e["helper"].split("::")[-1], e["into"].split("::")[-1], e["sites"]) for e in meta.get("helpers_expanded", []))
         return dict(name=os.path.basename(path), status="SILENT" if not alarms else "ALARM", alarms=alarms, s=round(time.time() - t0, 1),
                     why=("expanded: " + exp) if exp else "")
